@@ -24,6 +24,7 @@ ASSUMPTIONS = [
     "does not depend on it",
 ]
 REQUIRED_MONITORS = ["pool_quiescent", "blackbox_reopen", "pool_between_events"]
+ANCHOR_FUNCTIONS = ['server.py:Server._start_passive_server', 'server.py:Server.pasv', 'server.py:Server.epsv']
 EXHAUSTIVE = {"quick": False, "thorough": False}
 WALL_BUDGET = {"quick": 600, "thorough": 3600}
 
